@@ -293,7 +293,12 @@ func (c *consumerGroup) StreamDeleted(stream string, epoch uint64) error {
 	}
 
 	subscribers, ok := c.subscribers[stream]
-	if !ok {
+	if !ok || len(*subscribers) == 0 {
+		// Nobody in the group is subscribed to the stream, so the group does
+		// not change. An empty entry is what the last subscriber leaves
+		// behind; a group restored from a snapshot does not have it and must
+		// end up with the same epoch.
+		delete(c.subscribers, stream)
 		return nil
 	}
 	rebalance := make(map[string]struct{})
